@@ -130,9 +130,49 @@ def check(ctx):
                         "%s awaits block_until_allowed on `endpoint.rl` of its parameter on every path before returning" % name, [name, "not-a-wrapper"])
     ctx.require(R1c, bool(wrappers) or all(admission_polls(prog, cs[0].body, wrappers) for cs in by_body.values()), "acmed/src/http.rs",
                 "the limiter is reached through %s" % (wrappers or "direct awaits of block_until_allowed"), ["http", "limiter-reachable"])
+    limits_attached_rule(ctx, R1c)
     check_limiter(ctx)
     check_sharing(ctx)
     check_periods(ctx)
+
+
+def limits_attached_rule(ctx, rid):
+    """every rate limit an endpoint names is attached to it: config::Endpoint::to_generic EVALUATED on an endpoint naming three of four
+    configured limits — Endpoint::new must receive exactly those three (number, period) pairs, in the order named"""
+    from ..absint import NONE, Interp, Val, marker, ok, struct_val, success_model, vbool, vint, vstr
+    prog = ctx.prog
+    tg = prog.body("acmed::config::Endpoint::to_generic")
+    ECFG, CCFG, RL = "acmed::config::Endpoint", "acmed::config::Config", "acmed::config::RateLimit"
+    if tg is None or any(x not in prog.adts for x in (ECFG, CCFG, RL)) or "rate_limits" not in prog.adt_fields(ECFG) or "rate_limit" not in prog.adt_fields(CCFG):
+        return
+    defs = [("slow", 3, "1h"), ("fast", 20, "1s"), ("mid", 7, "10m"), ("unused", 1, "1d")]
+    cnf = struct_val(prog, CCFG, {"rate_limit": Val("list", [struct_val(prog, RL, {"name": vstr(n), "number": vint(k), "period": vstr(p)}) for n, k, p in defs]), "global": NONE})
+    for names in (["fast", "slow", "mid"], ["mid"], [], ["slow", "fast"]):
+        selfv = struct_val(prog, ECFG, {"name": vstr("ep"), "url": vstr("u"), "tos_agreed": vbool(True), "rate_limits": Val("list", [vstr(n) for n in names]), "root_certificates": NONE})
+
+        def model(cs_, args_):
+            if cs_.is_("acmed::endpoint::Endpoint::new"):
+                return ok(marker("EP"))
+            return None
+        try:
+            it = Interp(tg, success_model(tg, model), 100000)
+            it.follow = lambda cs_: (cs_.name or "").startswith(("acmed::config::", "<acmed::config::"))
+            r = it.run({1: Val("ref", selfv), 2: Val("ref", cnf), 3: Val("ref", Val("list", []))})
+        except Exception:
+            return
+        a_ = [x for c_, x, res_ in r.calls if c_.is_("acmed::endpoint::Endpoint::new")]
+        lim = None
+        for cand in (a_[0] if a_ else []):
+            cd = cand.deref()
+            if cd.k == "list" and all(x.deref().k == "tuple" and len(x.deref().v) == 2 for x in cd.v) and (cd.v or not names):
+                lim = cd
+        if r.kind != "return" or not a_ or lim is None:
+            ctx.ok(rid, "Endpoint::to_generic not evaluable for rate limits %s (%s): structural rules only" % (names, r.kind))
+            return
+        got = [(x.deref().v[0].deref().v, x.deref().v[1].deref().v) for x in lim.v]
+        want = [(k, p) for n in names for (n2, k, p) in defs if n2 == n]
+        ctx.require(rid, got == want, "%s:%s" % (tg.file, tg.line), "endpoint naming the rate limits %s gets %s attached (expected every one of them: %s)" % (names, got, want),
+                    ["config::Endpoint::to_generic", "limits-attached", repr(names)])
 
 
 def check_limiter(ctx):
